@@ -215,6 +215,9 @@ class ImmutableHeadersMixin:
     def insert(self, pos: t.Any, value: t.Any) -> t.NoReturn:
         _immutable_error(self)
 
+    def clear(self) -> t.NoReturn:
+        _immutable_error(self)
+
     def pop(self, key: t.Any = None, default: t.Any = _missing) -> t.NoReturn:
         _immutable_error(self)
 
